@@ -1,7 +1,7 @@
 (* C29 — Rewriting Markdown link destinations changes only link destinations.
    Only statements, `exact`, and Print Assumptions live here. *)
 From Verif Require Import Bytes IndexM Facts_linkdest LinkDestM LinkDestSpec LinkDestSpec_proofs LinkDest_proofs.
-From Verif Require Import Facts_linkscan LinkScanM LinkScan_base LinkScan_parse LinkScan_inline LinkScan_loops LinkScan_lines LinkScan_proofs LinkScan_idem LinkScan_facts.
+From Verif Require Import Facts_linkscan LinkScanM LinkScan_base LinkScan_parse LinkScan_inline LinkScan_loops LinkScan_lines LinkScan_proofs LinkScan_idem LinkScan_indep LinkScan_facts.
 Open Scope N_scope.
 
 (* Full statement.  It speaks about CommonMark (which spans of a document are
@@ -260,6 +260,23 @@ Definition C29_second_pass_statement : Prop :=
 Theorem C29_pipeline_second_pass_partial : C29_second_pass_statement.
 Proof. exact (fun decide H => conj (pipeline_fixpoint decide) (second_pass_spares_rewritten_texts decide H)). Qed.
 Print Assumptions C29_pipeline_second_pass_partial.
+
+(* the control flow of the scanner does not depend on the decision: the ranges
+   passed to it (the candidates, computed with the logging decision, each with
+   its raw bytes as text) are the same for every decision, and the collected
+   list is exactly the candidates on which the decision says Some, with its
+   text.  Hence a document is a fixed point of the pipeline as soon as the
+   decision leaves alone every candidate found in it. *)
+Definition C29_independence_statement : Prop :=
+  forall d src,
+    exists cs, collectReplacements log_decide src = LOk cs
+      /\ Forall (fun c => r_text c = sub src (r_start c) (r_stop c)) cs
+      /\ collectReplacements d src = LOk (decs d cs)
+      /\ ((forall c, In c cs -> d (sub src (r_start c) (r_stop c)) = None) -> replace d src = LOk src).
+
+Theorem C29_scan_independent_of_decision : C29_independence_statement.
+Proof. exact scan_independence_full. Qed.
+Print Assumptions C29_scan_independent_of_decision.
 
 (* the decision of appendReplacement is an instance: with the three properties
    of net/url of C29_idempotent_model it leaves its own texts alone *)
